@@ -6,7 +6,7 @@
    (`enqueue_publish_request`, `tick`), for ONE subscription WITHOUT monitored items, as the code
    is after
      fix: keep-alive rows 14/15 of the subscription state table                 (pre-landed)
-     fix: publishing cycles with a publish request queued counted towards ...    (row 9)
+     fix: subscription with keep-alive count 1 expired although publish requests were queued (row 9)
    Counters are u32 in the code, Z here; `lifetime_counter -= 1` at 0 is the explicit [Panic]
    (the harness is built with overflow checks).  Times are integer milliseconds.
    No proofs in this file. *)
